@@ -2,6 +2,7 @@ package harness
 
 import (
 	"fmt"
+	"time"
 
 	"verif/harness/cfggen"
 	"verif/harness/model"
@@ -18,6 +19,8 @@ type authPkt struct {
 	Start *model.AuthenStart    `json:"start,omitempty"`
 	Cont  *model.AuthenContinue `json:"cont,omitempty"`
 	Raw   model.B               `json:"raw,omitempty"`
+	// PauseMs: real time that passes before the packet is sent (a user who takes his time at a prompt)
+	PauseMs int `json:"pause_ms,omitempty"`
 }
 
 func (p authPkt) body() []byte {
@@ -428,6 +431,9 @@ func (r *authRunner) step(i int) (ev authEvent, ok bool, err error) {
 		}
 	}
 	p := r.scripts[i].Pkts[r.next[i]]
+	if p.PauseMs > 0 {
+		time.Sleep(time.Duration(p.PauseMs) * time.Millisecond)
+	}
 	h := model.Header{Version: 0xc0 | p.Minor, Type: model.TypeAuthen, Seq: byte(r.seq[i]), Session: r.scripts[i].Session}
 	pkts, rest, closed, err := r.d.send(model.Frame(r.key, h, p.body()))
 	if err != nil {
